@@ -1,5 +1,5 @@
 """C05 — ephemeral listeners never hold up or alter the synchronised stream."""
-from .. import protocol, sendfeed
+from .. import protocol, sendfeed, pipeline
 from ..core import Violation
 import copy, logging
 
@@ -55,3 +55,4 @@ def run(ctx):
         return r
     protocol.send_campaign(ctx, 'C05', n, ['sync', 'sync', 'adv'], extra_oracle=extra)
     ctx.result.extra['paired_sender_runs'] = npairs[0]
+    if not ctx.replay: pipeline.campaign_eph(ctx, 200 if ctx.thorough else 25)
